@@ -551,9 +551,11 @@ impl NodeSession {
                 control_protocol::control_message::Msg::Terminate(termination) => {
                     for pid in termination.ids {
                         if let Some(actor) = state.remote_actors.remove(&pid) {
-                            actor
+                            // the proxy may already be gone (e.g. it was stopped locally):
+                            // that is no reason to fail the whole session
+                            let _ = actor
                                 .stop_and_wait(Some("remote".to_string()), None)
-                                .await?;
+                                .await;
                             tracing::debug!(
                                 "Actor {pid} on node {} exited, terminating local `RemoteActor` {}",
                                 self.node_id,
@@ -1239,9 +1241,11 @@ impl Actor for NodeSession {
                         "NodeSession {:?} received a child exit with reason '{maybe_reason:?}'",
                         state.name
                     );
-                    actor
+                    // the proxy which reported its exit is already stopping, so this can
+                    // only fail; one proxy going away must not take the session down
+                    let _ = actor
                         .stop_and_wait(Some("remote_exit".to_string()), None)
-                        .await?;
+                        .await;
                 } else {
                     tracing::warn!("NodeSession {:?} received an unknown child actor exit event from {} - '{maybe_reason:?}'",
                         state.name,
